@@ -257,6 +257,11 @@ def parse_to_fn(f, fn, msg_resolver):
         g = _attr_of(test, avar)
         if g is not None:
             return "GTruthy", g
+        if isinstance(test, ast.UnaryOp) and isinstance(test.op, ast.Not) and isinstance(test.operand, ast.Compare) \
+                and len(test.operand.ops) == 1 and isinstance(test.operand.ops[0], ast.Is) \
+                and isinstance(test.operand.comparators[0], ast.Constant) \
+                and test.operand.comparators[0].value is None and _attr_of(test.operand.left, avar) is not None:
+            return "GNotNone", _attr_of(test.operand.left, avar)
         if isinstance(test, ast.Compare) and len(test.ops) == 1 and isinstance(test.ops[0], ast.IsNot) \
                 and isinstance(test.comparators[0], ast.Constant) and test.comparators[0].value is None:
             g = _attr_of(test.left, avar)
@@ -555,6 +560,7 @@ def translate(repo):
             bound[k] = v
         req = dict(cdef["params"])
         out = []
+        inl = {}
         for (prop, param, st, ck) in cdef["fields"]:
             e = bound.get(param)
             if e is None:
@@ -562,11 +568,13 @@ def translate(repo):
             elif e[0] == "FSelf":
                 if st != "SPlain" or ck != ("none",):
                     raise TranslatorError("inlined object %s stored through a normalising constructor" % prop)
-                _, sub = flat_from(e[1], prefix + prop + ".", seen | {name})
+                subcls, sub, subinl = flat_from(e[1], prefix + prop + ".", seen | {name})
                 out += sub
+                inl[prefix + prop] = subcls
+                inl.update(subinl)
             else:
                 out.append((prefix + prop, e, st, ck))
-        return fr["cls"], out
+        return fr["cls"], out, inl
 
     convs = {}
     for name in to_fns:
@@ -574,9 +582,9 @@ def translate(repo):
             continue
         if name not in from_fns:
             raise TranslatorError("%s_to_proto has no proto_to_%s" % (name, name))
-        cls, fargs = flat_from(name, "", frozenset())
+        cls, fargs, inl = flat_from(name, "", frozenset())
         convs[name] = {"cls": cls, "msg": to_fns[name]["mtype"], "to": flat_to(name, "", frozenset()),
-                       "from": fargs}
+                       "from": fargs, "inline": inl}
     for name in from_fns:
         if name not in convs and name in to_fns:
             # chain-only pair (downloadablemedia, media): parsed fail-closed above; their bodies are inlined
@@ -595,7 +603,8 @@ def translate(repo):
                 raise TranslatorError("from-side uses unknown converter %s" % e[1])
     schema = {m: schema_of(d) for m, d in sorted(descs.items()) if m in {c["msg"] for c in convs.values()}}
     files = sorted({fn} | {v["file"] for v in ccache.values()})
-    return {"schema": schema, "convs": convs, "notes": notes, "files": files}
+    classes = {k: {"params": v["params"], "fields": v["fields"]} for k, v in ccache.items()}
+    return {"schema": schema, "convs": convs, "notes": notes, "files": files, "classes": classes}
 
 
 # --------------------------------------------------------------------------- Coq emission
@@ -674,4 +683,9 @@ def regenerate(repo=None, out=None):
     if old != text:
         with open(out, "w") as f:
             f.write(text)
+    try:    # coq/Gen/C10Probes.v (needed by C10/C10Inst.v) — also rewritten by every check run
+        from ..props import C10 as _p
+        _p.emit_probes(_p.Info(_p.load_baseline()))
+    except Exception:
+        pass
     return tab
